@@ -15,7 +15,7 @@ from pymemcache.exceptions import MemcacheError
 
 PROPERTY = "C13"
 LEVEL = "exploration"
-RULE = ("history = event sequence over {key-addressed operation (get, set, delete, incr, get_many, set_many) on a key "
+RULE = ("history = event sequence over {key-addressed operation (get, set, delete, incr, get_many, set_many, and a set_many with a mixed outcome - one item stored, one answered NOT_STORED by a healthy server) on a key "
         "owned by server i; clock advance by 0.5/1/1.5 retry_timeouts or 0.5/1/1+eps/2+eps dead_timeouts; server i starts "
         "failing with ConnectionRefused / timeout / reset at connect / reset while the reply is awaited (connection and request accepted) / OSError; server i heals} for 1-3 servers x retry_attempts "
         "0/1/2 x ignore_exc off/on (retry_timeout 1, dead_timeout 60). Two back-ends: scripted clients installed through "
@@ -28,7 +28,7 @@ RULE = ("history = event sequence over {key-addressed operation (get, set, delet
         "window and <= retry_attempts+2 in any dead_timeout window; every routing decision equals the reference "
         "placement over the rotation it saw; a single-key call makes one routing decision and contacts nobody or "
         "exactly the routed server; a multi-key call contacts each server at most once; with retry_attempts >= 1 the "
-        "first failure does not evict; a server that never failed is never out of rotation nor bypassed; after all "
+        "first failure does not evict and a server leaves the rotation only after retry_attempts+1 failed contacts in a row since it last answered; a server that never failed is never out of rotation nor bypassed; after all "
         "servers heal, traffic for two dead_timeouts restores the original rotation and placement; only the failing "
         "server's own error or 'All servers seem to be down' escape, nothing with ignore_exc. Non-trivial: a server "
         "went failing -> dead -> revived, or was probed again after a retry_timeout.")
@@ -78,6 +78,7 @@ class Scripted:
         w = Scripted.world
         f = w["failing"].get(self.server)
         w["contacts"].append((w["clock"].now, self.server, name, f is not None, w["call"]))
+        ORDER.append(("contact", "%s:%s" % self.server, f is not None))
         if f is not None:
             raise f
 
@@ -103,14 +104,21 @@ class Scripted:
 
     def set_many(self, values, *a, **k):
         self._do("set_many")
-        return []
+        return [kk for kk in values if str(kk).startswith("ns-")]      # items a (healthy) server answers NOT_STORED
 
     def close(self):
         pass
 
 
+ORDER = []          # scripted back-end: contacts and removals from the rotation in the order they happen (one case at a time)
+
+
 def make_loghash(routes):
     class LogHash(RendezvousHash):
+        def remove_node(self, node):
+            ORDER.append(("remove", node))
+            return super().remove_node(node)
+
         def get_node(self, key):
             r = super().get_node(key)
             routes.append((tuple(self.nodes), key, r))
@@ -131,6 +139,7 @@ def make_minimal_hash(routes):
                 self.__ring.append(node)
 
         def remove_node(self, node):
+            ORDER.append(("remove", node))
             if node not in self.__ring:
                 raise ValueError("No such node %s to remove" % (node,))
             self.__ring.remove(node)
@@ -152,6 +161,20 @@ def rotation(hc):
 
 def name(s):
     return "%s:%s" % s
+
+
+_NS = {}
+
+
+def ns_key(names, node):
+    """a key 'ns-<i>' that placement puts on `node` (with every server in rotation)"""
+    k = (tuple(names), node)
+    if k not in _NS:
+        i = 0
+        while refhash.place(list(names), "ns-%d" % i) != node:
+            i += 1
+        _NS[k] = "ns-%d" % i
+    return _NS[k]
 
 
 def owned_keys(names):
@@ -187,6 +210,8 @@ def check(case):
             hc = HC(servers, hasher=(make_minimal_hash if case.get("hasher") == "minimal" else make_loghash)(routes), retry_attempts=ra, retry_timeout=RT, dead_timeout=DT, ignore_exc=ie)
         else:
             env = Env(addrs=servers)
+            for srv_ in env.servers:
+                srv_.refuse.update({ns_key(names, n_).encode(): "not-stored" for n_ in names})
             env.clock = clock
             for s in env.servers:
                 s.clock = clock
@@ -241,6 +266,10 @@ def _run(case, hc, servers, names, owner, key_of, routes, world, env, clock):
     ever_failed = set()
     failed_contacts = {}            # server -> number of failed contacts so far
     clean = {}                      # server -> no failed contact since its last successful one
+    fails_run = {}                  # server -> failed contacts in a row (since its last successful contact)
+    del ORDER[:]
+    order_pos, order_run = [0], {}
+    in_rot_before = set(names)
     intervals = {s: [] for s in servers}
     labels = set()
     mark = world.get("mark0", 0)
@@ -268,6 +297,13 @@ def _run(case, hc, servers, names, owner, key_of, routes, world, env, clock):
                 hc.get_many(list(owner))
             elif opn == "set_many":
                 hc.set_many({k: "1" for k in owner})
+            elif opn == "set_many_mixed":
+                # a batch with a mixed outcome: the server stores one item and answers NOT_STORED for the other (it is
+                # healthy and answered in full); the refused key comes back in the list of failed keys
+                nsk = ns_key(names, owner[key])          # a second key that lives on the same server
+                r = hc.set_many({key: "1", nsk: "2"})
+                if isinstance(r, list) and nsk not in r and not world["failing"]:
+                    raise Violation(["mixed-outcome", case.get("backend", "scripted")], "set_many of %r and %r (which every server answers with NOT_STORED) returned %r" % (key, nsk, r))
             return None
         except Exception as e:  # noqa: BLE001
             return e
@@ -313,7 +349,9 @@ def _run(case, hc, servers, names, owner, key_of, routes, world, env, clock):
         exc = do(opn, key)
         new, mark = _contacts_since(world, env, servers, mark)
         first_since_clean = set()
+        fails_before = dict(fails_run)
         for (t, s, failed) in new:
+            fails_run[s] = 0 if not failed else fails_run.get(s, 0) + 1
             if not failed:
                 clean[s] = True           # a successful contact: the failure record starts afresh
             if failed:
@@ -332,12 +370,24 @@ def _run(case, hc, servers, names, owner, key_of, routes, world, env, clock):
             own_error = any(exc is f for f in world["failing"].values()) or (env is not None and isinstance(exc, OSError))
             if not (own_error or (isinstance(exc, MemcacheError) and "All servers" in str(exc))):
                 V("internal-error", "%s(%r) raised %r, neither the failing server's error nor 'all servers down'" % (opn, key, exc))
+        if env is None:
+            # exact order of events inside the call: a server leaves the rotation only after retry_attempts+1 failed contacts in
+            # a row - counted up to the moment of the removal, not to the end of the call that removes it
+            for ev_ in ORDER[order_pos[0]:]:
+                if ev_[0] == "contact":
+                    order_run[ev_[1]] = 0 if not ev_[2] else order_run.get(ev_[1], 0) + 1
+                elif order_run.get(ev_[1], 0) < ra + 1:
+                    V("evicted-early", "%r was taken out of rotation after %d failed contact(s) in a row (since it last answered); retry_attempts=%d allows it after %d"
+                      % (ev_[1], order_run.get(ev_[1], 0), ra, ra + 1))
+            order_pos[0] = len(ORDER)
         rt = routes[r0:]
         for rot, k, node in rt:
             want = refhash.place(list(rot), k) if rot else None
             if node != want:
                 V("routing", "routing decision for %r over rotation %r chose %r, placement gives %r" % (k, list(rot), node, want))
-        if opn in ("get", "set", "delete", "incr"):
+        if opn == "set_many_mixed":
+            pass          # two keys, possibly two servers while one is out: only the bounds, routing and eviction rules apply
+        elif opn in ("get", "set", "delete", "incr"):
             if len(rt) != 1:
                 V("routing-count", "%s(%r) made %d routing decisions" % (opn, key, len(rt)))
             if len(new) > 1:
@@ -361,6 +411,14 @@ def _run(case, hc, servers, names, owner, key_of, routes, world, env, clock):
         for (t, s, failed) in new:
             if failed and ra >= 1 and s in first_since_clean and name(s) not in rot_now:
                 V("evicted-on-first-failure", "%r was taken out of rotation by a single failure (its first since its last successful contact) although retry_attempts=%d" % (name(s), ra))
+        for s in servers:
+            # leaving the rotation takes the first failure plus retry_attempts failed retries since the server last answered
+            # (the call that evicts may go on to contact the server: the run of failures is the one it found or the one it left)
+            runlen = max(fails_before.get(s, 0), fails_run.get(s, 0))
+            if name(s) in in_rot_before and name(s) not in rot_now and runlen < ra + 1:
+                V("evicted-early", "%r was taken out of rotation after %d failed contact(s) in a row (since it last answered); retry_attempts=%d allows it after %d"
+                  % (name(s), runlen, ra, ra + 1))
+        in_rot_before = set(rot_now)
         for s in servers:
             if s not in ever_failed and name(s) not in rot_now:
                 V("never-failed-out-of-rotation", "%r never failed but is out of rotation %r" % (name(s), rot_now))
@@ -448,7 +506,7 @@ def probe_train_cases(tier, seed):
         for ie in (False, True):
             for n in range(1, depth + 1):
                 for gaps in itertools.product(range(3), repeat=n):
-                    for opn in (("get",) if (sum(gaps) + n) % 2 else ("set_many",)):
+                    for opn in (("get",), ("set_many",), ("set_many_mixed",))[(sum(gaps) + n) % 3]:
                         ev = [["fail", 0, ("refused", "timeout", "reset", "oserror")[(n + ra) % 4]], ["op", opn, 0]]
                         for g in gaps:
                             ev += [["adv", GAPS[g]], ["op", opn, 0]]
@@ -502,7 +560,7 @@ def real_train_cases(tier, seed):
             for ie in (False, True):
                 for n in range(1, depth + 1):
                     for gaps in itertools.product(range(3), repeat=n):
-                        opn = ("get", "set", "incr", "get_many")[(sum(gaps) + n + ra) % 4]
+                        opn = ("get", "set", "incr", "get_many", "set_many_mixed")[(sum(gaps) + n + ra) % 5]
                         ev = [["fail", 0, kind], ["op", opn, 0]]
                         for g in gaps:
                             ev += [["adv", GAPS[g]], ["op", opn, 0]]
@@ -535,7 +593,7 @@ def minimise(case, still_fails):
 
 
 def history_strategy(tier):
-    opn = st.sampled_from(["get", "set", "delete", "incr", "get_many", "set_many"])
+    opn = st.sampled_from(["get", "set", "delete", "incr", "get_many", "set_many", "set_many_mixed"])
     ev = st.one_of(
         st.tuples(st.just("op"), opn, st.integers(0, 2)).map(list),
         st.tuples(st.just("op"), opn, st.integers(0, 2)).map(list),
